@@ -463,7 +463,7 @@ impl TreeSys for Fam {
 
 fn main() {
     let run = Run::from_args("C07");
-    let fam = Fam { alpha: vec![None, Some(0.0), Some(1.0), Some(3.0)], max_len: run.pick(4, 5), level: 1 };
+    let fam = Fam { alpha: vec![None, Some(0.0), Some(1.0), Some(3.0)], max_len: run.pick(4, 6), level: 1 };
     if let Some(path) = &run.replay {
         let stored = load_replay(path).unwrap_or_else(|e| {
             eprintln!("MACHINERY-ERROR: {e}");
